@@ -159,5 +159,5 @@ Qed.
     is accepted by the schema table iff it is accepted by the loader table — the
     value syntax of durations (C20-F6) apart *)
 Theorem schema_loader_accept_equal :
-  forall p, accepts (erase_classes schema_tbl) p = accepts (erase_classes loader_tbl) p.
+  forall p, accepts (erase_classes (mech_only schema_tbl)) p = accepts (erase_classes (mech_only loader_tbl)) p.
 Proof. apply strict_ok_accepts. exact tables_strict. Qed.
